@@ -500,9 +500,12 @@ class ObjGen:
         m, d = r.randrange(1, 13), r.randrange(1, 29)
         h, mi, s = r.randrange(24), r.randrange(60), r.choice([0, r.randrange(60)])
         us = r.choice([0, 0, 5000, 120000, 500000, 1, 999999, r.randrange(10 ** 6), 1000 * r.randrange(1000)])
-        tz = r.choice([None, UTC, UTC, datetime.timezone(datetime.timedelta(hours=r.choice([-12, -5, -1, 1, 9, 12]))),
+        tz = r.choice([None, None, UTC, UTC, UTC, UTC,
+                       datetime.timezone(datetime.timedelta(hours=r.choice([-12, -5, -1, 1, 9, 12, 13]))),
                        datetime.timezone(datetime.timedelta(hours=r.choice([5, -3]), minutes=30)),
                        datetime.timezone(datetime.timedelta(seconds=r.choice([30, 3601])))])
+        if self.enc in ("PVL", "ISIS", "PDS3") and r.random() < 0.8:
+            tz = r.choice([None, UTC])
         k = r.random()
         if k < 0.33: return datetime.date(y, m, d)
         if k < 0.66: return datetime.time(h, mi, s, us, tzinfo=tz)
